@@ -66,9 +66,29 @@ def relabel(repo, col, R):
     if st_nodes is None:
         raise AnalysisError("set_ncomp no longer assigns base.nodes")
     asserts = [n for n in body if isinstance(n, ast.Assert)]
+
+    def on_base(t, a):
+        return t.op == "attr" and t.name == a and t.args[0].op == "attr" and t.args[0].name == "base"
+
+    def says_empty(t, a):
+        """the condition holds only if the BASE module's registry `a` is empty (a conjunction may say more)"""
+        if t.op == "bool" and t.name == "And":
+            return any(says_empty(x, a) for x in t.args)
+        if t.op == "cmp" and len(t.args) == 2:
+            l, r = t.args
+            ln = lambda x: x.op == "call" and x.name == "len" and on_base(x.args[0], a)
+            zero = lambda x: x.op == "const" and x.name == 0
+            one = lambda x: x.op == "const" and x.name == 1
+            return (t.name == "==" and ((ln(l) and zero(r)) or (ln(r) and zero(l)))) or \
+                (t.name == "<" and ln(l) and one(r)) or (t.name == "<=" and ln(l) and zero(r))
+        if t.op in ("not", "unary") and (t.op == "not" or t.name == "Not"):
+            x = t.args[0]
+            return on_base(x, a) or (x.op == "call" and x.name == "len" and on_base(x.args[0], a))
+        if t.op == "attr" and t.name == "empty":
+            return on_base(t.args[0], a)
+        return False
     for reg, attrs in REGISTRIES.items():
-        guarded = any(any(f"self.base.{a}" in unparse(a_.test) for a in attrs) and "len(" in unparse(a_.test) and "== 0" in unparse(a_.test)
-                      and a_.lineno < st_nodes.node.lineno for a_ in asserts)
+        guarded = any(any(says_empty(ex.term(a_.test), a) for a in attrs) and a_.lineno < st_nodes.node.lineno for a_ in asserts)
         rewritten = any((s.kind in ("sub", "attr", "mcall")) and any(
             (s.base.op == "attr" and s.base.name == a and s.base.args[0].op == "attr" and s.base.args[0].name == "base") or
             (s.kind == "attr" and s.key.name == a and s.base.op == "attr" and s.base.name == "base") for a in attrs)
